@@ -81,7 +81,10 @@ func nodeRandomOp(rng *rand.Rand, p nodeProfile) string {
 		if n == nodeSelf && rng.Intn(4) > 0 { // memberlist reports the local node dead only inside Leave
 			n = "a"
 		}
-		return fmt.Sprintf("nl %s %d", hexs(n), rng.Intn(9))
+		if rng.Intn(3) == 0 {
+			return fmt.Sprintf("nl %s %d", hexs(n), rng.Intn(9))
+		}
+		return fmt.Sprintf("nl %s %d %s", hexs(n), rng.Intn(9), []string{"d", "l"}[rng.Intn(2)])
 	case "mj":
 		return fmt.Sprintf("mj %s %d", hexs(nodeName(rng, p)), nodeLT(rng))
 	case "ml":
